@@ -97,7 +97,17 @@ def rule_skipguard(ctx):
     need(len(sc) == 1 and len(nf) == 1, R, "_gauc: score / num_frames accumulation not found")
 
     def under_norm(m):
-        return any(c is norm and p for c, p in symeval.pc_conds(m.pc))
+        # conditions inside the query loop only
+        rel = []
+        inside = False
+        for c in m.pc:
+            if c[0] == "loop":
+                inside = True
+            elif inside and c[0] == "if":
+                rel.append((c[1], c[2]))
+        conds = rel
+        # exactly the normaliser test: any further condition (an extra `continue` fast path) would drop queries that must score 0
+        return len(conds) == 1 and conds[0][0] is norm and conds[0][1]
 
     yield ob(R, f, "hierarchy._gauc:score-under-normalizer", under_norm(sc[0]), "a query contributes only when it has at least one reference triple (`if normalizer`)", node=sc[0].node)
     yield ob(R, f, "hierarchy._gauc:count-under-normalizer", under_norm(nf[0]) and tm.is_const(nf[0].val, 1), "the frame counter is incremented under the same condition, by 1", node=nf[0].node)
@@ -210,6 +220,21 @@ def rule_rankpairs(ctx):
     yield ob(R, g, "hierarchy._count_inversions:ties", len(advance) == 1 and counted_under, "a pair is in order only when a < b strictly; ties (a >= b) are counted as inversions")
 
 
+def rule_labelfold(ctx):
+    """L-measure compares labels through util.index_labels (case-insensitive, shared with segment metrics)."""
+    R = "C17.LABELFOLD"
+    f = ctx.program.func("hierarchy._meet", R)
+    s = ctx.S.get(f.qual)
+    il = [c for c in s.calls() if c.callee == "util.index_labels"]
+    eq = [c for c in s.calls() if c.callee == "np.equal.outer"]
+    good = len(il) == 1 and len(il[0].args) == 1 and not il[0].kw and len(eq) == 1 and all(a.op == "sub" and a.a[0] is il[0].term and tm.is_const(a.a[1], 0) for a in eq[0].args)
+    yield ob(R, f, "hierarchy._meet:index_labels", good, "level labels are indexed by util.index_labels with default (case-insensitive) folding and compared by equality" if good else "labels of a level are not indexed through util.index_labels(labels) (case folding lost) before the equality comparison")
+    # agreement depth: deeper levels overwrite shallower ones (levels enumerate from 1)
+    it = [itm for lid, (node, itm) in s.loops.items() if itm.op == "call" and call_name(itm) == "builtins.enumerate"]
+    good = bool(it) and len(it[0].a[1]) == 2 and tm.is_const(it[0].a[1][1], 1)
+    yield ob(R, f, "hierarchy._meet:levels-from-1", good, "levels are numbered from 1 (0 = no agreement) and later (deeper) levels overwrite earlier ones")
+
+
 def rule_twin(ctx):
     for o in c06.rule_twincall(ctx):
         if o.construct.startswith("hierarchy."):
@@ -233,5 +258,6 @@ RULES = [
     ("C17.SELFEXCL", 5, rule_selfexcl),
     ("C17.RANKPAIRS", 5, rule_rankpairs),
     ("C17.TWIN", 4, rule_twin),
+    ("C17.LABELFOLD", 2, rule_labelfold),
     ("C17.EVALPARAM", 6, rule_evalparam),
 ]
